@@ -150,6 +150,35 @@ def segrecover_design(eng, ti):
             raise Inconclusive("SegRecover negative control: the pinned design (no erase) was not rejected")
 
 
+WALIMPL_INVS = ["C03_OpenSucceeds", "C03_Writable", "C01_ViewAllowed", "C01_Recovered", "C13_ExactDir", "C13_UniqueIds", "MemMatchesMeta"]
+
+
+def walimpl_design(eng, ti):
+    """Design-level check of the engine at file granularity (spec/WalImpl.tla): crash between any two I/O steps of
+    Open / StoreLogs / rotation / DeleteRange, incl. inside recovery; the repaired design must satisfy the C01/C03/C04/C13
+    invariants; the design switches (pinned F1, seeded S02, no sweep, no tail re-creation) must each be rejected."""
+    consts = dict(MaxIdx=(4, 5)[ti], SealAt=(3, 2)[ti], MaxCrashes=(2, 3)[ti], MaxOps=(5, 6)[ti],
+                  RotateOnOpen=True, CreateBeforeCommit=False, Sweep=True, RecreateTail=True)
+    r = tlc("WalImpl", cfg_text(constants=consts, invariants=WALIMPL_INVS), timeout=(200, 1500)[ti])
+    if r.error == "timeout":
+        eng.stats["walimpl_timeout"] = True
+    elif r.error or r.violated:
+        raise Inconclusive("WalImpl (repaired design) failed: %s %s\n%s" % (r.error, r.violated, r.out[-3000:]))
+    eng.stats["design_states"] = eng.stats.get("design_states", 0) + r.generated
+    eng.stats["design_distinct"] = eng.stats.get("design_distinct", 0) + r.distinct
+    eng.stats["walimpl"] = {"consts": consts, "distinct": r.distinct, "generated": r.generated, "wall": round(r.wall, 1)}
+    if ti == 1:
+        neg = {}
+        for sw, val, expect in (("RotateOnOpen", False, "C03_Writable"), ("CreateBeforeCommit", True, "C03_OpenSucceeds"),
+                                ("Sweep", False, "C13_ExactDir"), ("RecreateTail", False, "C03_OpenSucceeds")):
+            n = tlc("WalImpl", cfg_text(constants=dict(consts, MaxIdx=4, SealAt=3, MaxCrashes=2, MaxOps=5, **{sw: val}),
+                                        invariants=WALIMPL_INVS), timeout=600)
+            neg[sw] = n.violated
+            if not n.violated:
+                raise Inconclusive("WalImpl negative control %s=%s was not rejected" % (sw, val))
+        eng.stats["walimpl_negative_controls"] = neg
+
+
 def check_crash(pid, tier, seed):
     prof = CRASH_PROFILES[pid]
     ti = 0 if tier == "quick" else 1
@@ -157,6 +186,8 @@ def check_crash(pid, tier, seed):
     eng = we.Engine(pid, tier, seed)
     if pid == "C02":
         segrecover_design(eng, ti)
+    else:
+        walimpl_design(eng, ti)
     wl = gen_crash_workloads(prof, ti, seed, eng.stats)
     if not wl:
         raise Inconclusive("no workloads generated")
